@@ -2,6 +2,7 @@
 package c14
 
 import (
+	"context"
 	"fmt"
 	"os"
 	"path/filepath"
@@ -20,7 +21,7 @@ import (
 func init() {
 	core.Register(&core.Simple{
 		Id: "C14", Lvl: "exploration", Quick: 24, Thorough: 600, PerBatch: 6, Width: 3, Race: true, Timeout: 1500,
-		RuleText: "each case runs the real processOutbox and connection loops in a race-detector build with 4-24 clients (every third one sends handshake, login and its first four requests in a single write), each driven by 2-4 concurrent sender goroutines issuing 40-120 requests with large replies (message board of 20-60 KiB, file lists of 100-600 entries, user lists, news lists, file info) mixed with broadcast traffic (public chat, user-info changes, board posts); in every second run 1-3 further clients vanish mid-frame (their writes are cut short and then fail) while requesting large replies; the client side of every connection records each Write call as one atomic chunk (TCP semantics) and yields or sleeps at random before recording, so writes of different transactions to one client can overlap; at hook-based quiescence the reference decoder re-frames every client's byte stream, a ledger checks that every reply carries the id of an unanswered request sent on that connection, and every always-answered request has exactly one reply. distinct = (clients, senders, board size class, observed multi-chunk frames > 0); non-trivial = run delivered at least one frame larger than the 32 KiB copy buffer",
+		RuleText: "each case runs the real processOutbox and connection loops in a race-detector build with 4-24 clients (every third one sends handshake, login and its first four requests in a single write), each driven by 2-4 concurrent sender goroutines issuing 40-120 requests with large replies (message board of 20-60 KiB, file lists of 100-600 entries, user lists, news lists, file info) mixed with broadcast traffic (public chat, user-info changes, board posts); in every second run 1-3 further clients vanish mid-frame (their writes are cut short and then fail) while requesting large replies; in one run out of eight the idle timer marks every user away in the middle of the traffic; in another a client with a 16 KiB window stops reading for 6.5 s and then carries on; the client side of every connection records each Write call as one atomic chunk (TCP semantics) and yields or sleeps at random before recording, so writes of different transactions to one client can overlap; at hook-based quiescence the reference decoder re-frames every client's byte stream, a ledger checks that every reply carries the id of an unanswered request sent on that connection, and every always-answered request has exactly one reply. distinct = (clients, senders, board size class, observed multi-chunk frames > 0); non-trivial = run delivered at least one frame larger than the 32 KiB copy buffer",
 		Case:     runCase,
 	})
 }
@@ -107,6 +108,46 @@ func runCase(c *core.Case) {
 		cl.Conn.SetWriteLimit(1 + r.Intn(150000))
 	}
 	c.Count("clients_vanishing_mid_frame", len(flaky))
+	// in one run out of eight the idle timer is running and every user is 5 s short of being marked away: the away
+	// notifications (and the "back again" ones that the users' next requests cause) go out in the middle of the traffic
+	idleRun := c.Index%8 == 3
+	var idleStart time.Time
+	if idleRun {
+		for _, cc := range srv.S.ClientMgr.List() {
+			cc.IdleTime = 295
+		}
+		ctx, cancel := context.WithCancel(context.Background())
+		defer cancel()
+		go srv.S.VerifKeepaliveHandler(ctx)
+		idleStart = time.Now()
+		c.Count("runs_with_users_going_away", 1)
+	}
+	// in one run out of eight the first client has a small receive window and stops reading for 6.5 s in the middle of
+	// the run, then carries on: the server's writes to it block meanwhile (nothing is lost, nothing is cut)
+	if c.Index%8 == 5 {
+		stall := clients[0]
+		stall.Conn.Backpressure = 16 << 10
+		stopRead := make(chan struct{})
+		defer close(stopRead)
+		go func() {
+			buf := make([]byte, 8192)
+			got, paused := 0, false
+			for {
+				select {
+				case <-stopRead:
+					return
+				default:
+				}
+				if !paused && got > 150000 { // well into the run, most likely in the middle of a large reply
+					time.Sleep(6500 * time.Millisecond)
+					paused = true
+				}
+				n, _ := stall.Conn.ClientRead(buf[:1+got%len(buf)], 20*time.Millisecond, nil)
+				got += n
+			}
+		}()
+		c.Count("clients_that_stop_reading_for_6.5s", 1)
+	}
 	// from now on every server-side Write to a client yields or sleeps first, so that the per-transaction
 	// sender goroutines really overlap
 	var hookSeed atomic.Uint64
@@ -155,6 +196,9 @@ func runCase(c *core.Case) {
 		}(fi, cl)
 	}
 	for ci, cl := range clients {
+		if idleRun && ci < 2 {
+			continue // these two (the lowest user ids) stay silent, so that the idle timer really marks them away
+		}
 		for s := 0; s < senders; s++ {
 			wg.Add(1)
 			go func(ci, s int, cl *refclient.Client) {
@@ -200,6 +244,40 @@ func runCase(c *core.Case) {
 		}
 	}
 	wg.Wait()
+	if idleRun {
+		// wait for the idle timer's first tick (10 s), then every client sends one more keep-alive and one more request
+		if d := 11*time.Second - time.Since(idleStart); d > 0 {
+			time.Sleep(d)
+		}
+		for ci, cl := range clients {
+			for _, typ := range []int{500, 300} {
+				id := cl.NewID()
+				lmu.Lock()
+				ledgers[ci][id] = sent{typ}
+				lmu.Unlock()
+				cl.SendRaw(rc.Tran{Type: uint16(typ), ID: id}.Encode())
+			}
+		}
+		deadline := time.Now().Add(refclient.Watchdog)
+		for ci, cl := range clients {
+			for {
+				answered := 0
+				for _, t := range cl.Inbox() {
+					if s, ok := ledgers[ci][t.ID]; ok && t.IsReply == 1 && (s.typ == 500 || s.typ == 300) {
+						answered++
+					}
+				}
+				if answered >= 2 || cl.FrameErr != nil {
+					break
+				}
+				if time.Now().After(deadline) {
+					c.Fail("C14/request-unanswered", "client %d: after the users had been marked away by the idle timer, a keep-alive and a user-list request were not answered within %v", ci, refclient.Watchdog)
+					return
+				}
+				time.Sleep(time.Millisecond)
+			}
+		}
+	}
 	if !srv.Quiesce(4 * refclient.Watchdog) {
 		c.Unsure("no quiescence")
 		return
